@@ -14,7 +14,32 @@ import engine
 engine.use_repo()
 
 # strategy -> (module, tag); the module provides tie(full) -> context manager with .lines / .impl and compare()
-MODELS = {"greedy": "tie_rule", "balanced": "tie_rule", "distributed": "s_distributed"}
+MODELS = {"greedy": "tie_rule", "balanced": "tie_rule", "distributed": "s_distributed",
+          "balanced_market": "s_balanced_market", "peak_load_window": "s_peak_load_window", "schedule": "s_schedule", "flex_window": "s_flex_window"}
+
+
+class AdapterError(BaseException):
+    """a failure of the rendering adapter inside a wrapped strategy step. Not an Exception: Scenario.run catches
+    Exception around the step, and an adapter failure must never look like a failure of the strategy - it ends the
+    evaluation as a harness crash (exit 2)."""
+
+
+def _guard(mod):
+    if getattr(mod, "_steptie_guarded", False):
+        return
+    for name in ("render_world", "render_result", "render_init", "render_init_result"):
+        f = getattr(mod, name, None)
+        if f is None:
+            continue
+
+        def safe(*a, _f=f, _n=name, **k):
+            try:
+                return _f(*a, **k)
+            except Exception as e:
+                import traceback
+                raise AdapterError("%s.%s: %r\n%s" % (mod.__name__, _n, e, traceback.format_exc()[-1500:]))
+        setattr(mod, name, safe)
+    mod._steptie_guarded = True
 
 
 class _Null:
@@ -33,6 +58,7 @@ def tie_for(full, enabled=True):
     if not name:
         return _Null()
     mod = importlib.import_module(name)
+    _guard(mod)
     return _Tagged(mod.tie(full), name)
 
 
@@ -50,6 +76,9 @@ class _Tagged:
 
     def _get(self, key):
         b = self.box
+        errs = b.get("errors") if isinstance(b, dict) else getattr(b, "errors", None)
+        if errs:
+            raise AdapterError("%s: %s" % (self.name, errs[:3]))
         return list(b[key]) if isinstance(b, dict) else list(getattr(b, key))
 
     @property
